@@ -200,6 +200,10 @@ class EngineC13:
             "np_seed": np_seed,
             "dense_layout": g.choice(["F", "grown"]),
             "with_replacement": g.random() < 0.5,
+            # count data held in integer storage (where every value is a whole number)
+            "int_vals": g.random() < 0.3,
+            # a sampler object configured on one dense tensor and then asked to sample another one (of another size)
+            "configured_on": [g.randint(2, 5) for _ in range(g.randint(2, 3))] if (not sparse and g.random() < 0.3) else None,
         }
 
     def _gen_solve_step(self, g, sw, np_seed, stochastic: bool, like=None):
@@ -360,6 +364,8 @@ class EngineC13:
             vals = x[tuple(subs.T)].reshape(-1, 1)
             if subs.shape[0] == 0:
                 return x, ttb.sptensor(shape=tuple(x.shape))
+            if step.get("int_vals") and np.all(vals == np.round(vals)):
+                vals = vals.astype(np.int64)
             return x, ttb.sptensor(subs, vals, tuple(x.shape))
         if step.get("dense_layout") == "grown" and x.ndim >= 2 and x.shape[-1] >= 2:
             # a dense tensor that reached its size by assignment (its storage then has another memory layout)
@@ -480,7 +486,11 @@ class EngineC13:
                         cnt = S.StratifiedCount(num_zeros=n_z, num_nonzeros=n_nz)
                         kw.update(function_sampler=S.Samplers.STRATIFIED, function_samples=cnt, gradient_sampler=S.Samplers.SEMISTRATIFIED, gradient_samples=cnt)
                         which = "gradient_semistrat"
-                    sampler = S.GCPSampler(data, **kw)
+                    built_on = data
+                    if step.get("configured_on") and not sparse and fn in ("gcpsampler_uniform", "gcpsampler_default") and tuple(step["configured_on"]) != tuple(x.shape):
+                        built_on = ttb.tensor(np.asfortranarray(np.arange(1.0, 1.0 + int(np.prod(step["configured_on"]))).reshape(step["configured_on"])))
+                        res.bump("probe:sampler_configured_on_another_tensor")
+                    sampler = S.GCPSampler(built_on, **kw)
                     outs = []
                     if fn == "gcpsampler_default":
                         outs.append(("default_function", sampler.function_sample(data)))
